@@ -68,13 +68,27 @@ Inductive sop :=
 | OBack (n : Z)                (* read *back(n) under the check sLen >= n+1 *)
 | OSetBack (n : Z) (v : word)  (* write *back(n) under the same check *)
 | OLen                         (* stack.len() *)
-| OData (k : nat).             (* Data() of the frame k levels below the active one *)
+| OData (k : nat)              (* Data() of the frame k levels below the active one *)
+| ODupN (x : N)                (* EIP-8024 DUPN with immediate byte x     (instructions.go: opDupN) *)
+| OSwapN (x : N)               (* EIP-8024 SWAPN with immediate byte x    (instructions.go: opSwapN) *)
+| OExchange (x : N).           (* EIP-8024 EXCHANGE with immediate byte x (instructions.go: opExchange) *)
 
 Inductive sobs :=
 | BUnit | BWord (w : word) | BWord2 (w r : word) | BWords (l : list word) | BInt (z : Z)
 | BErr (c : Z).
 (* error classes: 1 ErrStackUnderflow, 2 ErrStackOverflow, 3 no such frame (script error,
    decided by the driver, not by stack.go), 4 Go panic, 5 not an opcode of the jump table *)
+
+(* instructions.go: decodeSingle / decodePair *)
+Definition decode_single (x : N) : Z := Z.of_N ((x + 145) mod 256).
+Definition decode_pair (x : N) : Z * Z :=
+  let k := N.lxor x 143 in
+  let q := (k / 16)%N in let r := (k mod 16)%N in
+  if (q <? r)%N then (Z.of_N (q + 1), Z.of_N (r + 1)) else (Z.of_N (r + 1), 29 - Z.of_N q).
+(* the immediates opDupN/opSwapN (x > 90 && x < 128) and opExchange (x > 81 && x < 128) reject
+   with ErrInvalidOpCode; a byte is < 256 *)
+Definition imm_single_ok (x : N) : bool := (x <? 256)%N && negb ((90 <? x)%N && (x <? 128)%N).
+Definition imm_pair_ok (x : N) : bool := (x <? 256)%N && negb ((81 <? x)%N && (x <? 128)%N).
 
 (* stack_table.go: minStack / maxStack / minDupStack / ... as used by jump_table.go for
    PUSHn (0,1), POP (1,0), DUPn, SWAPn; OPop1Peek1 stands for a binary op (2,1);
@@ -91,6 +105,10 @@ Definition bounds (o : sop) : option (Z * Z) :=
   | OSwap n => if (1 <=? n) && (n <=? 16) then Some (min_stack (n + 1) (n + 1), max_stack (n + 1) (n + 1)) else None
   | OBack n | OSetBack n _ => if 0 <=? n then Some (min_stack (n + 1) (n + 1), max_stack (n + 1) (n + 1)) else None
   | OLen | OData _ | OEnter | OExit => Some (0, stack_limit)
+  (* eips.go: enable8024 — the jump table's bounds; the operand-dependent depth is checked
+     inside the operation *)
+  | ODupN _ => Some (min_stack 1 0, max_stack 0 1)
+  | OSwapN _ | OExchange _ => Some (min_stack 2 0, max_stack 0 0)
   end.
 
 (* interpreter.go: if sLen < minStack -> ErrStackUnderflow else if sLen > maxStack -> ErrStackOverflow *)
@@ -233,6 +251,44 @@ Section Arena.
                               | Some a' => ((a', s :: fs'), BUnit)
                               | None => panic st end
             | OLen => (st, BInt (s_size s))
+            | ODupN x =>
+                (* opDupN: operand range; if scope.Stack.len() < n -> ErrStackUnderflow;
+                   scope.Stack.push(scope.Stack.back(n - 1)) *)
+                if negb (imm_single_ok x) then (st, BErr 5)
+                else let n := decode_single x in
+                  if s_size s <? n then (st, BErr 1)
+                  else match stk_back a s (n - 1) with
+                       | Some v => match stk_push a s v with
+                                   | Some (a', s') => ((a', s' :: fs'), BUnit)
+                                   | None => panic st end
+                       | None => panic st end
+            | OSwapN x =>
+                (* opSwapN: if scope.Stack.len() < n+1 -> ErrStackUnderflow;
+                   top := peek(); nth := back(n); *top, *nth = *nth, *top *)
+                if negb (imm_single_ok x) then (st, BErr 5)
+                else let n := decode_single x in
+                  if s_size s <? n + 1 then (st, BErr 1)
+                  else match stk_back a s 0, stk_back a s n with
+                       | Some t, Some v =>
+                           match stk_set_back a s 0 v with
+                           | Some a1 => match stk_set_back a1 s n t with
+                                        | Some a2 => ((a2, s :: fs'), BUnit)
+                                        | None => panic st end
+                           | None => panic st end
+                       | _, _ => panic st end
+            | OExchange x =>
+                (* opExchange: need := max(n, m) + 1; nth := back(n); mth := back(m); swap *)
+                if negb (imm_pair_ok x) then (st, BErr 5)
+                else let '(n, m) := decode_pair x in
+                  if s_size s <? Z.max n m + 1 then (st, BErr 1)
+                  else match stk_back a s n, stk_back a s m with
+                       | Some u, Some v =>
+                           match stk_set_back a s n v with
+                           | Some a1 => match stk_set_back a1 s m u with
+                                        | Some a2 => ((a2, s :: fs'), BUnit)
+                                        | None => panic st end
+                           | None => panic st end
+                       | _, _ => panic st end
             | _ => (st, BErr 3)
             end
           end
@@ -301,6 +357,37 @@ Definition pstep (st : pstate) (o : sop) : pstate * sobs :=
                             | Some p' => (p' :: r, BUnit)
                             | None => (st, BErr 4) end
           | OLen => (st, BInt (plen p))
+          | ODupN x =>
+              if negb (imm_single_ok x) then (st, BErr 5)
+              else let n := decode_single x in
+                if plen p <? n then (st, BErr 1)
+                else match zget p (plen p - n) with
+                     | Some v => ((p ++ [v]) :: r, BUnit)
+                     | None => (st, BErr 4) end
+          | OSwapN x =>
+              if negb (imm_single_ok x) then (st, BErr 5)
+              else let n := decode_single x in
+                if plen p <? n + 1 then (st, BErr 1)
+                else match zget p (plen p - 1), zget p (plen p - n - 1) with
+                     | Some t, Some v =>
+                         match zset p (plen p - 1) v with
+                         | Some p1 => match zset p1 (plen p - n - 1) t with
+                                      | Some p2 => (p2 :: r, BUnit)
+                                      | None => (st, BErr 4) end
+                         | None => (st, BErr 4) end
+                     | _, _ => (st, BErr 4) end
+          | OExchange x =>
+              if negb (imm_pair_ok x) then (st, BErr 5)
+              else let '(n, m) := decode_pair x in
+                if plen p <? Z.max n m + 1 then (st, BErr 1)
+                else match zget p (plen p - n - 1), zget p (plen p - m - 1) with
+                     | Some u, Some v =>
+                         match zset p (plen p - n - 1) v with
+                         | Some p1 => match zset p1 (plen p - m - 1) u with
+                                      | Some p2 => (p2 :: r, BUnit)
+                                      | None => (st, BErr 4) end
+                         | None => (st, BErr 4) end
+                     | _, _ => (st, BErr 4) end
           | _ => (st, BErr 3)
           end
         end
